@@ -311,6 +311,8 @@ def _qemu_layout_case(vals, acc):
 
 def run(ctx):
     rep = ctx.new_report()
+    from vlib.ref import noise as _noise
+    E.set_noise(_noise.strutils_noise())
     mags = list(MAGS)
     if ctx.thorough:
         mags += ['3', '0.3', '1000', '1023.999', '%d' % (ctx.seed * 7919 + 17), '00012', '0.0']
